@@ -139,15 +139,67 @@ Proof.
       * now rewrite B3.
 Qed.
 
-(* A caller that keeps going after an error (harness family `cont`). The specification: once the
-   fault at write call k < w has been consumed the build may not be reported finished. Only the
-   specification is stated here; the state of the builder after an error is outside Writer.v (the
-   chunks emitted by later calls depend on the half-updated unfinished-node stack), so there is no
-   model-level theorem for it and the correspondence for that family compares S only. On the
-   current code the implementation does NOT meet this specification when the fault falls inside
-   an add/insert call: see known-findings.txt. *)
+(* A caller that KEEPS GOING after an error (harness family `cont`): it ignores the Err(Io) of the
+   failed call and issues the remaining add/insert calls and into_inner. The specification: once the
+   fault at write call k < w has been consumed the build may not be reported finished
+   ([cont_spec_finished]). The model of that caller is Writer.run_session_cont: a failed write inside
+   add/insert marks the builder (`Builder::io_failed`), and every later add/insert/into_inner returns
+   Err(Io(Other)) before touching anything.  (Before the repair recorded in known-findings.txt the
+   builder went on with a half-popped stack of unfinished nodes: later calls panicked or into_inner
+   reported success for a damaged file.)
+
+   C11_keep_going: the caller that keeps going sees exactly what the caller that stops at the first
+   error sees, followed by one refusal per remaining call and one for into_inner; the sink and the
+   byte counter are those of the stopping caller: nothing is written after the failed call. Every
+   theorem above about [run_sink_session] therefore speaks about the continuing caller too. *)
+Require Import FstV.proofs.WriterCont.
+
 Theorem C11_cont_spec : forall k w : nat, (k < w)%nat -> cont_spec_finished k w = false.
 Proof. intros k w H. unfold cont_spec_finished. apply Nat.ltb_lt in H. now rewrite H. Qed.
+
+Theorem C11_keep_going : forall crc_update masked oracle fl prefill calls fin,
+  let o := run_sink_session crc_update masked false oracle fl prefill calls fin in
+  let oc := run_sink_session_cont crc_update masked oracle fl prefill calls fin in
+  match o_fin o with
+  | Some _ => oc = o                                   (* no call failed before into_inner *)
+  | None =>
+    let refusal : callres := (IoErr IoOther, o_cnt o, s_calls (o_final o), length (s_data (o_final o))) in
+    (length (o_calls o) = 1%nat -> oc = o) /\            (* the constructor failed: no builder *)
+    ((1 < length (o_calls o))%nat ->
+       o_calls oc = o_calls o ++ map (fun _ => refusal) (skipn (length (o_calls o)) calls) /\
+       o_fin oc = Some refusal /\
+       o_final oc = o_final o /\ o_cnt oc = o_cnt o /\ o_sum oc = o_sum o)
+  end.
+Proof.
+  intros crc masked oracle fl prefill calls fin.
+  exact (cont_is_stop_plus_refusals crc masked sink_writer false s_calls (fun s => length (s_data s))
+           (new_sink oracle fl prefill) calls fin).
+Qed.
+
+(* the last clause of the property for the continuing caller: once the fault was consumed, into_inner
+   (if there is a builder to call it on) returns Err(Io _) - the build is never reported finished *)
+Theorem C11_keep_going_never_finished : forall crc_update masked pre bad kf post fl prefill calls fin,
+  Forall benign pre -> fault_kind bad kf ->
+  let oc := run_sink_session_cont crc_update masked (pre ++ bad :: post) fl prefill calls fin in
+  (length pre < s_calls (o_final oc))%nat ->
+  forall rf, o_fin oc = Some rf -> exists k, to_res (st_of rf) = Err (EIo k).
+Proof.
+  intros crc masked pre bad kf post fl prefill calls fin Hb Hk oc Hc rf Hrf.
+  pose proof (C11_keep_going crc masked (pre ++ bad :: post) fl prefill calls fin) as T.
+  cbv zeta in T. fold oc in T.
+  destruct (o_fin (run_sink_session crc masked false (pre ++ bad :: post) fl prefill calls fin)) as [rf'|] eqn:Ef.
+  - (* same session as the stopping caller *)
+    rewrite T in Hrf, Hc. exists kf.
+    pose proof (C11_fault_not_finished crc masked pre bad kf post fl prefill calls fin Hb Hk) as F.
+    cbv zeta in F. apply (F Hc). exact Hrf.
+  - destruct T as [T1 T2].
+    destruct (Nat.eq_dec (length (o_calls (run_sink_session crc masked false (pre ++ bad :: post) fl prefill calls fin))) 1) as [e|ne].
+    + rewrite (T1 e), Ef in Hrf. discriminate.
+    + pose proof (cont_never_finishes_after_a_failure crc masked sink_writer false s_calls (fun s => length (s_data s))
+                    (new_sink (pre ++ bad :: post) fl prefill) calls fin Ef) as N.
+      fold (run_sink_session_cont crc masked (pre ++ bad :: post) fl prefill calls fin) in N. fold oc in N.
+      rewrite Hrf in N. destruct rf as [[[st bw] wc] wa]. subst st. exists IoOther. reflexivity.
+Qed.
 
 (* non-vacuity: a fault at response 3 (inside the second call) and a failing flush *)
 Example C11_nonvacuous :
@@ -221,6 +273,8 @@ Print Assumptions C11_flush.
 Print Assumptions C11_finished_means_complete.
 Print Assumptions C11_finished_means_complete_bufwriter.
 Print Assumptions C11_cont_spec.
+Print Assumptions C11_keep_going.
+Print Assumptions C11_keep_going_never_finished.
 Print Assumptions C11_nonvacuous.
 Print Assumptions C11_end_to_end.
 Print Assumptions C11_end_to_end_not_finished.
